@@ -44,6 +44,13 @@ def build_message(spec):
         m.product_name = "sim"
         m.auth_application_id = list(spec.get("auth", [4]))
         m.acct_application_id = list(spec.get("acct", []))
+        if spec.get("vsai"):
+            # the 3GPP way: the applications are advertised inside Vendor-Specific-Application-Id only
+            from diameter.message.avp.grouped import VendorSpecificApplicationId
+            m.vendor_specific_application_id = (
+                [VendorSpecificApplicationId(vendor_id=10415, auth_application_id=a) for a in m.auth_application_id] +
+                [VendorSpecificApplicationId(vendor_id=10415, acct_application_id=a) for a in m.acct_application_id])
+            m.auth_application_id, m.acct_application_id = [], []
     elif k == "cea":
         m = CapabilitiesExchangeAnswer()
         if spec.get("result") is not None:
@@ -61,6 +68,8 @@ def build_message(spec):
         if spec.get("host", "x") is not None:
             m.origin_host = spec.get("host", "cli0.example.net").encode()
         m.origin_realm = b"example.net"
+        if spec.get("osid") is not None:
+            m.origin_state_id = spec["osid"]
         if k == "dpr":
             m.disconnect_cause = 0
     elif k in ("dwa", "dpa"):
@@ -91,9 +100,12 @@ def build_message(spec):
             m.header.is_request = True
             if spec.get("host", "x") is not None:
                 m.append_avp(Avp.new(constants.AVP_ORIGIN_HOST, value=spec.get("host", "cli0.example.net").encode()))
+            if spec.get("host2") is not None:
+                # a second Origin-Host AVP: a command without a python class exposes repeated AVPs as a list
+                m.append_avp(Avp.new(constants.AVP_ORIGIN_HOST, value=spec["host2"].encode()))
             if spec.get("drealm", "example.net") is not None:
                 m.append_avp(Avp.new(constants.AVP_DESTINATION_REALM, value=spec.get("drealm", "example.net").encode()))
-        m.header.application_id = spec.get("app", 4)
+        m.header.application_id = spec.get("hdr_app", spec.get("app", 4))
         if spec.get("t"):
             m.header.is_retransmit = True
     elif k == "ans":        # application answer
@@ -127,6 +139,9 @@ def abstract(wire):
         if not hasattr(m, attr):
             return "Undeclared", None
         v = getattr(m, attr)
+        if isinstance(v, list):
+            # a repeated AVP of a command without a python class: the node goes by the first occurrence
+            v = v[0] if v else None
         if v is None:
             return "Absent", None
         if isinstance(v, bytes) and dec:
@@ -207,6 +222,8 @@ def out_abstract(msg):
                 failed.append((a.code, a.vendor_id))
     d = dict(cmd=CMD.get(code) or f"App {code}", req=h.is_request, app=h.application_id,
              hbh=h.hop_by_hop_identifier, e2e=h.end_to_end_identifier, result=rc, failed=failed)
+    if code == 280 and not h.is_request:
+        d["osid"] = getattr(msg, "origin_state_id", None)
     if code == 257:      # what a capabilities-exchange message advertises (oracle only)
         def lst(x):
             return sorted(x) if isinstance(x, (list, tuple, set)) else ([] if x is None else [x])
@@ -269,6 +286,7 @@ class Run:
         self.node = node
         self.delivered = []          # (app index, Message)
         self.unexpected = []
+        self.apps_stopped = set()
         self.apps = []
         run = self
 
@@ -284,6 +302,10 @@ class Run:
 
             def handle_answer(self, message):
                 run.unexpected.append((self.idx, message))
+
+            def stop(self):
+                run.apps_stopped.add(self.idx)
+                super().stop()
         peers = []
         for p in cfg["peers"]:
             pr = node.add_peer("aaa://" + p["name"], p["realm"], ip_addresses=(["10.1.0.9"] if p["addr"] else []),
@@ -388,7 +410,10 @@ class Run:
             sim.run()
             self.results.append(hnd.result if hnd.done else "blocked")
         elif k == "start":
-            self.start(ev.get("dials", ()))
+            try:
+                self.start(ev.get("dials", ()))
+            except Exception as e:   # noqa -- Node.start() itself failed: recorded like the abnormal end of a thread
+                sim.thread_deaths.append(("driver:Node.start", f"{type(e).__name__}: {e}"))
         elif k == "app_request":
             app = self.apps[ev["app"]]
             msg = ev["msg"]
@@ -444,6 +469,7 @@ class Run:
             live_threads=sim.live_threads_by_role(),
             open_sockets=[cid for cid, r in enumerate(self.remotes) if not r.closed_by_node],
             listeners_open=[not getattr(l, "closed", False) for l in sim.listeners],
+            apps_stopped=sorted(self.apps_stopped), n_apps=len(self.apps),
             sends=sends,
             delivered=[(i, m.header.hop_by_hop_identifier, m.header.end_to_end_identifier) for i, m in self.delivered[n_deliv:]],
             unexpected=[(i, m.header.hop_by_hop_identifier) for i, m in self.unexpected[n_unexp:]],
